@@ -39,6 +39,7 @@ class Ctx:
         self.nontrivial = set()
         self.samples = []
         self.violations = []      # (fingerprint, replay dict)
+        self._fp_with_replay = set()
         self.known_hits = {}
         self.notes = {}
         self.assumptions = []
@@ -97,10 +98,13 @@ class Ctx:
             self.known_hits.setdefault(fingerprint, 0)
             self.known_hits[fingerprint] += 1
             return
-        if len(self.violations) < 50:
+        # every distinct fingerprint keeps (at least) its first replay record, so that each gets its VIOLATION line
+        if len(self.violations) < 50 or (replay is not None and fingerprint not in self._fp_with_replay):
             self.violations.append((fingerprint, replay))
         else:
             self.violations.append((fingerprint, None))
+        if replay is not None:
+            self._fp_with_replay.add(fingerprint)
 
     # ---- finishing -------------------------------------------------------
     def finish(self):
